@@ -391,6 +391,66 @@ pub fn content_strategy() -> BoxedStrategy<Case> {
     vec(token, 0..14).prop_map(|t| Case::Raw { entry: E_CONTENT, bytes: B(t.concat()) }).boxed()
 }
 
+/// A file whose content stream has its /Length in an object stream (so the loader can only delimit the stream in a
+/// second phase, from the value) and a value chosen around the two boundaries that matter: the end of the file, and
+/// the end of the file seen from the start of the stream data.
+pub fn length_in_objstm_file(content_len: usize, sel: u8, delta: i8) -> Vec<u8> {
+    let mut f: Vec<u8> = b"%PDF-1.5\n".to_vec();
+    let mut offs = vec![0usize; 8];
+    let mut put = |f: &mut Vec<u8>, n: usize, body: &[u8]| {
+        offs[n] = f.len();
+        f.extend_from_slice(format!("{} 0 obj", n).as_bytes());
+        f.extend_from_slice(body);
+        f.extend_from_slice(b"endobj\n");
+    };
+    put(&mut f, 1, b"<</Type/Catalog/Pages 2 0 R>>");
+    put(&mut f, 2, b"<</Type/Pages/Kids[3 0 R]/Count 1>>");
+    put(&mut f, 3, b"<</Type/Page/Parent 2 0 R/Contents 4 0 R>>");
+    let head = b"<</Length 6 0 R>>stream\n";
+    let data_start = f.len() + "4 0 obj".len() + head.len();
+    let mut body = head.to_vec();
+    body.extend((0..content_len).map(|i| b"BT /F1 9 Tf (x) Tj ET "[i % 22]));
+    body.extend_from_slice(b"\nendstream ");
+    put(&mut f, 4, &body);
+    // the value is written with a fixed width (leading zeros are legal) so that the file length does not depend on it
+    let placeholder = b"<</Type/ObjStm/N 1/First 4/Length 15>>stream\n6 0 @@@@@@@@@@\nendstream ";
+    put(&mut f, 5, placeholder);
+    let xref_off = f.len();
+    offs[7] = xref_off;
+    let mut x = vec![];
+    for n in 0..8usize {
+        match n {
+            0 => x.extend_from_slice(&[0, 0, 0, 255]),
+            6 => x.extend_from_slice(&[2, 0, 5, 0]),
+            _ => x.extend_from_slice(&[1, (offs[n] >> 8) as u8, offs[n] as u8, 0]),
+        }
+    }
+    f.extend_from_slice(b"7 0 obj<</Type/XRef/Size 8/W[1 2 1]/Root 1 0 R/Length 32>>stream\n");
+    f.extend_from_slice(&x);
+    f.extend_from_slice(format!("\nendstream endobj\nstartxref\n{}\n%%EOF", xref_off).as_bytes());
+    let file_len = f.len() as i64;
+    let d = delta as i64;
+    let value: i64 = match sel % 6 {
+        0 => content_len as i64,
+        1 => file_len + d,
+        2 => file_len - data_start as i64 + d,
+        3 => content_len as i64 + d,
+        4 => [0, 1, i32::MAX as i64, 4294967295, 9999999999][d.rem_euclid(5) as usize],
+        _ => file_len,
+    }
+    .clamp(0, 9_999_999_999);
+    let digits = format!("{:010}", value);
+    let at = f.windows(10).position(|w| w == b"@@@@@@@@@@").unwrap();
+    f[at..at + 10].copy_from_slice(digits.as_bytes());
+    f
+}
+
+fn length_window_strategy() -> BoxedStrategy<Case> {
+    (0usize..300, 0u8..6, -40i8..=6, any::<bool>())
+        .prop_map(|(n, sel, delta, inc)| Case::Raw { entry: if inc { E_INCLOAD } else { E_LOAD }, bytes: B(length_in_objstm_file(n, sel, delta)) })
+        .boxed()
+}
+
 fn unoptimised_strategy(ladder_max: usize) -> BoxedStrategy<Case> {
     prop_oneof![
         4 => ladder_strategy(ladder_max),
@@ -404,7 +464,7 @@ fn unoptimised_strategy(ladder_max: usize) -> BoxedStrategy<Case> {
 }
 
 pub fn run(run: &mut Run) {
-    run.rule = "inputs for the eight byte-level entry points, evaluated in an isolated worker process (8 MiB stack, single allocation request <= max(256 MiB, 4096 x input), cumulative <= max(1 GiB, 16384 x input), watchdog 10 s confirmed alone with 60 s): (a) structure-aware mutants (bit/byte edits, truncation, deletion, insertion, self-splice, every number -> 26 extremes or another number of the file, keyword swaps) of valid files from REF-W (incl. update revisions, object streams, xref streams), lopdf's own writer and the repository assets, through load_mem and IncrementalDocument::load_from; (b) constructions: nesting ladders (arrays, dictionaries, parentheses, mixed; depth 1..20000) in files, content streams and object streams; cross-reference streams with extreme W/Index/Size; object streams with extreme N/First and hostile index blocks; filter chains with extreme Predictor/Colors/Columns/BitsPerComponent/EarlyChange and ASCII85 boundary groups; ToUnicode CMaps from a grammar with reversed, 2^32-wide and short-array ranges and long targets; text strings with lone BOMs, odd lengths and lone surrogates; content streams with hostile tokens and inline images of extreme geometry. lopdf is compiled with overflow checks; campaign 'unoptimised-build' repeats the ladders and a sample of the other constructions against a worker compiled without optimisation (dev profile, 2 MiB case stack, watchdog 30 s / 180 s). Oracle: returns a value or an error — no panic, abort, stack overflow, confirmed hang or oversized allocation. non-trivial = the input gets past header/startxref discovery (load entries) or reaches the decoder proper; distinct by case hash.".into();
+    run.rule = "inputs for the eight byte-level entry points, evaluated in an isolated worker process (8 MiB stack, single allocation request <= max(256 MiB, 4096 x input), cumulative <= max(1 GiB, 16384 x input), watchdog 10 s confirmed alone with 60 s): (a) structure-aware mutants (bit/byte edits, truncation, deletion, insertion, self-splice, every number -> 26 extremes or another number of the file, keyword swaps) of valid files from REF-W (incl. update revisions, object streams, xref streams), lopdf's own writer and the repository assets, through load_mem and IncrementalDocument::load_from; (b) constructions: nesting ladders (arrays, dictionaries, parentheses, mixed; depth 1..20000) in files, content streams and object streams; cross-reference streams with extreme W/Index/Size; object streams with extreme N/First and hostile index blocks; filter chains with extreme Predictor/Colors/Columns/BitsPerComponent/EarlyChange and ASCII85 boundary groups; ToUnicode CMaps from a grammar with reversed, 2^32-wide and short-array ranges and long targets; text strings with lone BOMs, odd lengths and lone surrogates; content streams with hostile tokens and inline images of extreme geometry; files whose content stream has its /Length in an object stream with a value around the end of the file and around file length minus data start. lopdf is compiled with overflow checks; campaign 'unoptimised-build' repeats the ladders and a sample of the other constructions against a worker compiled without optimisation (dev profile, 2 MiB case stack, watchdog 30 s / 180 s). Oracle: returns a value or an error — no panic, abort, stack overflow, confirmed hang or oversized allocation. non-trivial = the input gets past header/startxref discovery (load entries) or reaches the decoder proper; distinct by case hash.".into();
     run.assumptions = vec![
         "Err is a pass; slowness below the confirmation threshold is a statistic only".into(),
         "signatures of open known findings are tolerated in-campaign (counted as excluded known:<id>) so that the search continues behind them".into(),
@@ -421,6 +481,7 @@ pub fn run(run: &mut Run) {
     run.campaign("cmap-grammar", cmap_strategy, run.tier.pick(10_000, 400_000), check, |_c, _v| None);
     run.campaign("text-strings", textstring_strategy, run.tier.pick(5_000, 100_000), check, |_c, _v| None);
     run.campaign("content-tokens", content_strategy, run.tier.pick(10_000, 400_000), check, |_c, _v| None);
+    run.campaign("indirect-length-in-object-stream", length_window_strategy, run.tier.pick(3_000, 60_000), check, |_c, _v| None);
     let _ = thorough;
     // the same constructions against lopdf compiled without optimisation: stack frames are an order of magnitude
     // larger there, and that is the build `cargo test` and every debug build of a caller runs
